@@ -3,7 +3,7 @@
 against it. Prints the obligations (rule|construct) that report the returned defect; used to key the `fixed` entries
 of known_findings.json and to confirm that a fixed entry suppresses nothing."""
 import json, os, subprocess, re, shutil, sys
-V="/verif"; S="/tmp/revmatrix-repo"; SV="/tmp/revmatrix-verif"
+V="/verif"; S="/tmp/revmatrix-repo-%d"%os.getpid(); SV="/tmp/revmatrix-verif-%d"%os.getpid()
 log=subprocess.check_output(["git","-C","/repo","log","--format=%h %s"],text=True).splitlines()
 fixes=[l.split(" ",1) for l in log if l.split(" ",1)[1].startswith("fix:")]
 only=sys.argv[1:]
